@@ -361,6 +361,12 @@ def _seeded():
         if not (meta.exists() and patch.exists()):
             continue
         m = json.loads(meta.read_text())
+        if m.get("kind") == "benign":
+            # a behaviour-preserving refactoring delivered by an independent agent: every listed check must stay silent on it
+            edits = _hunks(patch.read_text())
+            for prop in m.get("selftest_properties", []):
+                CORPUS.append(dict(id=f"refactor-{d.name}-{prop}", prop=prop, kind="B", edits=edits, expect=None))
+            continue
         if m.get("selftest") == "excluded":
             continue  # a recorded miss (see meta.json / DESIGN.md): kept for the record, not part of the kill count
         edits = _hunks(patch.read_text())
